@@ -55,32 +55,21 @@ def run(ctx):
     # ---------------------------------------------------------------- R1
     cps = repo.func(PDF, "_create_parameters_from_spec")
     ctx.touch(cps)
-    ext_stmt = app_stmt = None
-    pm = A.parent_map(cps.node)
-    for n in ast.walk(cps.node):
-        if isinstance(n, ast.AugAssign) and isinstance(n.target, ast.Name) and n.target.id == "auxdata" and "auxdata" in A.unparse(n.value):
-            ext_stmt = n
-        if isinstance(n, ast.Expr) and isinstance(n.value, ast.Call) and A.call_attr(n.value) in ("append",) and A.dotted(n.value.func.value) == "auxdata_order":
-            app_stmt = n
-        if isinstance(n, ast.Expr) and isinstance(n.value, ast.Call) and A.call_attr(n.value) == "extend" and A.dotted(n.value.func.value) == "auxdata":
-            ext_stmt = n
-    if ext_stmt is None or app_stmt is None:
-        ctx.unrecognised(r1, cps, "_create_parameters_from_spec", "auxdata / auxdata_order growth not found")
-    else:
-        g1, g2 = A.enclosing(ext_stmt, pm, (ast.If, ast.For)), A.enclosing(app_stmt, pm, (ast.If, ast.For))
-        if g1 is g2 and isinstance(g1, ast.If) and "constrained" in A.unparse(g1.test) and ext_stmt in g1.body and app_stmt in g1.body:
-            ctx.holds(r1, f"{PDF}::_create_parameters_from_spec", "auxdata and auxdata_order grow together under `paramset.constrained`")
+    try:
+        def ctor(name, constrained):
+            return PyFunc(lambda a, k: Obj(f"ps_{name}", {"constrained": constrained, "auxdata": [Poly.atom(f"AUX_{name}0"), Poly.atom(f"AUX_{name}1")]}), f"ctor_{name}")
+        params_mod = Obj("pyhf.parameters", {"T_a": ctor("a", True), "T_b": ctor("b", False), "T_c": ctor("c", True)})
+        reqs = {"a": {"paramset_type": "T_a"}, "b": {"paramset_type": "T_b"}, "c": {"paramset_type": "T_c"}}
+        out = Interp({"_reqs": reqs, "pyhf": Obj("pyhf", {"parameters": params_mod})}, {}, {}).run(A.strip_docstring(cps.node.body))
+        sets, aux, order = out
+        okk = isinstance(sets, dict) and list(sets) == ["a", "b", "c"] and [str(to_poly(x)) for x in aux] == ["AUX_a0", "AUX_a1", "AUX_c0", "AUX_c1"] and list(order) == ["a", "c"]
+        if okk:
+            ctx.holds(r1, f"{PDF}::_create_parameters_from_spec", "returns (sets, auxdata, auxdata_order); auxdata and order grow together for constrained sets only, in requirement order")
         else:
-            ctx.violated(r1, cps, ext_stmt, "auxiliary data and their order list are not extended under the same guard: an auxiliary datum is paired with another parameter's constraint", expected="both inside `if paramset.constrained:`", node=ext_stmt)
-        if isinstance(ext_stmt, ast.AugAssign) and "paramset.auxdata" in A.unparse(ext_stmt.value) and app_stmt.value.args and A.dotted(app_stmt.value.args[0]) == "param_name":
-            ctx.holds(r1, f"{PDF}::_create_parameters_from_spec", "appends this paramset's auxdata and this paramset's name")
-        else:
-            ctx.violated(r1, cps, app_stmt, "the aux order entry is not the name of the parameter set whose auxdata was appended", node=app_stmt)
-    ret = [r for r in ast.walk(cps.node) if isinstance(r, ast.Return) and r.value is not None]
-    if ret and isinstance(ret[0].value, ast.Tuple) and [A.dotted(e) for e in ret[0].value.elts] == ["_sets", "auxdata", "auxdata_order"]:
-        ctx.holds(r1, f"{PDF}::_create_parameters_from_spec", "returns (_sets, auxdata, auxdata_order)")
-    else:
-        ctx.violated(r1, cps, ret[0] if ret else "return", "return order of (_sets, auxdata, auxdata_order) changed while callers unpack positionally", node=ret[0] if ret else cps.node)
+            ctx.violated(r1, cps, "_create_parameters_from_spec", "auxiliary data and their order list are not built together from the constrained parameter sets (an auxiliary datum is paired with another parameter's constraint), or the return order changed while callers unpack positionally",
+                         expected="({a,b,c}, [AUX_a*, AUX_c*], ['a','c'])", found=f"({list(sets) if isinstance(sets, dict) else sets}, {[str(x) for x in aux] if isinstance(aux, list) else aux}, {order})")
+    except (Undecided, TypeError, ValueError) as e:
+        ctx.unrecognised(r1, cps, "_create_parameters_from_spec", f"not interpretable: {e}")
     classes = {"normal": repo.cls(CON, "gaussian_constraint_combined"), "poisson": repo.cls(CON, "poisson_constraint_combined")}
     for kind, c in classes.items():
         init = c.methods["__init__"]
@@ -93,7 +82,8 @@ def run(ctx):
         for loop, var in loops:
             res = runoff.analyse(loop, var)
             site = f"{CON}::{c.name}.__init__: loop over {A.short(loop.iter, 30)} [{var}]"
-            if res["ok"] and res["width"] == ["parset.n_parameters"]:
+            tname = A.unparse(loop.target)
+            if res["ok"] and res["width"] == [f"{tname}.n_parameters"]:
                 ctx.holds(r1, site, f"{res['paths']} path(s) per iteration, one advance each by {res['width'][0]}")
             elif res["ok"]:
                 ctx.violated(r1, init, f"{var} advance", "the aux offset is not advanced by the size of the parameter set", expected="parset.n_parameters", found=str(res["width"]), node=loop)
@@ -208,7 +198,9 @@ def run(ctx):
     except (Undecided, IndexError) as e:
         ctx.unrecognised(r4, model.methods["make_pdf"], "make_pdf", str(e))
     init = model.methods["__init__"]
-    szs = [A.dotted(c.args[0]) for c in A.calls_in(init.node) if A.call_attr(c) == "append" and A.dotted(c.func.value) == "sizes" and c.args]
+    tvc = [c for c in A.calls_in(init.node) if A.call_attr(c) == "_tensorviewer_from_sizes"]
+    lname = A.dotted(tvc[0].args[0]) if tvc and tvc[0].args else None
+    szs = [A.dotted(c.args[0]) for c in A.calls_in(init.node) if A.call_attr(c) == "append" and lname and A.dotted(c.func.value) == lname and c.args]
     if szs == ["self.config.nmaindata", "self.config.nauxdata"]:
         ctx.holds(r4, f"{PDF}::Model.__init__", "viewer sizes [nmaindata, nauxdata]")
     else:
@@ -221,19 +213,32 @@ def run(ctx):
         else:
             ctx.violated(r4, m, f"make_pdf(pars)[...]", f"{mname} does not address constituent {idx} of the full pdf ({'main' if idx == 0 else 'constraint'})", expected=str([idx]), found=str(subs), node=m.node)
     ci = cm.methods["__init__"]
-    order = [A.unparse(c.args[0]) for c in A.calls_in(ci.node) if A.call_attr(c) == "append" and A.dotted(c.func.value) == "indices"]
-    if order == ["self.constraints_gaussian._normal_data", "self.constraints_poisson._poisson_data"]:
-        ctx.holds(r4, f"{PDF}::_ConstraintModel.__init__", "indices [gaussian data, poisson data]")
-    else:
-        ctx.violated(r4, ci, "indices", "constraint data indices are not [gaussian, poisson]", found=str(order), node=ci.node)
+    try:
+        rec = {}
+        G = Obj("G", {"_normal_data": Poly.atom("NDATA"), "batch_size": None})
+        Pn = Obj("P", {"_poisson_data": Poly.atom("PDATA"), "batch_size": None})
+        ext = {"gaussian_constraint_combined": lambda a, k: G, "poisson_constraint_combined": lambda a, k: Pn, "ParamViewer": lambda a, k: Obj("PV"),
+               ".has_pdf": lambda recv, a, k: True, "has_pdf": lambda a, k: True, "_TensorViewer": lambda a, k: (rec.__setitem__("tv", a) or Obj("CTV"))}
+        Interp({"config": Obj("config", {"npars": Poly.const(3), "par_map": Obj("pm"), "auxdata_order": ["x"]}), "batch_size": None}, {}, {}, cls_name="_ConstraintModel", externals=ext).run(A.strip_docstring(ci.node.body))
+        got = [str(to_poly(x)) for x in rec["tv"][0]]
+        if got == ["NDATA", "PDATA"]:
+            ctx.holds(r4, f"{PDF}::_ConstraintModel.__init__", "indices [gaussian data, poisson data]")
+        else:
+            ctx.violated(r4, ci, "indices", "constraint data indices are not [gaussian, poisson]", found=str(got), node=ci.node)
+    except (Undecided, KeyError) as e:
+        ctx.unrecognised(r4, ci, "_ConstraintModel.__init__", f"not interpretable: {e}")
     cmp_ = cm.methods["make_pdf"]
-    order = [A.dotted(c.args[0]) for c in A.calls_in(cmp_.node) if A.call_attr(c) == "append" and A.dotted(c.func.value) == "pdfobjs"]
-    defs = {A.dotted(t): A.unparse(n.value) for n in ast.walk(cmp_.node) if isinstance(n, ast.Assign) for t in n.targets}
-    resolved = [defs.get(o, o) for o in order]
-    if len(resolved) == 2 and "constraints_gaussian" in resolved[0] and "constraints_poisson" in resolved[1]:
-        ctx.holds(r4, f"{PDF}::_ConstraintModel.make_pdf", "pdfobjs [gaussian, poisson] (same order as the indices)")
-    else:
-        ctx.violated(r4, cmp_, "pdfobjs", "constraint pdfs are not appended in the order of their data indices (gaussian, poisson)", found=str(resolved), node=cmp_.node)
+    try:
+        rec = {}
+        ext = {".make_pdf": lambda recv, a, k: Obj(f"pdf[{recv.name}]"), "Simultaneous": lambda a, k: (rec.__setitem__("sim", a) or Obj("SIM"))}
+        Interp({"pars": Poly.atom("PARS"), "prob": Obj("prob")}, {"constraints_gaussian": Obj("G"), "constraints_poisson": Obj("P"), "constraints_tv": Obj("CTV"), "batch_size": None}, {}, cls_name="_ConstraintModel", externals=ext).run(A.strip_docstring(cmp_.node.body))
+        got = [getattr(x, "name", str(x)) for x in rec["sim"][0]]
+        if got == ["pdf[G]", "pdf[P]"] and getattr(rec["sim"][1], "name", "") == "CTV":
+            ctx.holds(r4, f"{PDF}::_ConstraintModel.make_pdf", "pdfobjs [gaussian, poisson] (same order as the indices), split with constraints_tv")
+        else:
+            ctx.violated(r4, cmp_, "pdfobjs", "constraint pdfs are not appended in the order of their data indices (gaussian, poisson)", found=str(got), node=cmp_.node)
+    except (Undecided, KeyError) as e:
+        ctx.unrecognised(r4, cmp_, "_ConstraintModel.make_pdf", f"not interpretable: {e}")
 
     # ---------------------------------------------------------------- R5
     sim = repo.cls(PROB, "Simultaneous")
@@ -270,17 +275,17 @@ def run(ctx):
     else:
         ctx.violated(r5, ind, "sum(..., axis=-1)", "bin log-probabilities are not summed over the last axis only", node=sums[0] if sums else ind.node)
     lp = sim.methods["log_prob"]
-    z = [c for c in A.calls_in(lp.node) if A.call_attr(c) == "zip"]
-    dl = Deps(lp.node)
-    if z and len(z[0].args) == 2 and A.unparse(z[0].args[0]) in ("self", "self._pdfobjs") and any(A.call_attr(x) == "split" for dd in [z[0].args[1]] for x in A.calls_in(dd) + [y for nm in A.names_loaded(dd) for df in dl.defs.get(nm, []) for y in A.calls_in(df)]):
-        ctx.holds(r5, f"{PROB}::Simultaneous.log_prob", "constituents zipped with tv.split(value)")
-    else:
-        ctx.violated(r5, lp, "zip(self, tv.split(value))", "constituent pdfs are not paired with their own slice of the data", node=lp.node)
-    jc = [c for c in A.calls_in(lp.node) if A.call_attr(c) == "_joint_logpdf"]
-    if jc and jc[0].args and "pdfvals" in A.names_loaded(jc[0].args[0]) or (jc and dl.depends_on(jc[0].args[0], "constituent_data")):
-        ctx.holds(r5, f"{PROB}::Simultaneous.log_prob", "joint of all constituent log-probabilities")
-    else:
-        ctx.violated(r5, lp, "_joint_logpdf(...)", "log_prob does not return the joint of all constituent log-probabilities", node=lp.node)
+    try:
+        rec = {}
+        ext = {".split": lambda recv, a, k: [Poly.atom("D1"), Poly.atom("D2")], "_joint_logpdf": lambda a, k: (rec.__setitem__("j", (a, k)) or Poly.atom("JOINT"))}
+        out = Interp({"value": Poly.atom("VALUE"), "self": [Obj("P1"), Obj("P2")], "Simultaneous": Obj("Simultaneous")}, {"tv": Obj("TV"), "batch_size": None, "_pdfobjs": [Obj("P1"), Obj("P2")]}, {}, cls_name="Simultaneous", externals=ext).run(A.strip_docstring(lp.node.body))
+        got = [str(to_poly(x)) for x in rec["j"][0][0]]
+        if got == ["log_prob<P1;D1>", "log_prob<P2;D2>"] and str(to_poly(out)) == "JOINT":
+            ctx.holds(r5, f"{PROB}::Simultaneous.log_prob", "joint of [p_i.log_prob(split_i)] in constituent order")
+        else:
+            ctx.violated(r5, lp, "Simultaneous.log_prob", "constituent pdfs are not paired with their own slice of the data, or the joint of all of them is not returned", expected="_joint_logpdf([P1.log_prob(D1), P2.log_prob(D2)])", found=str(got))
+    except (Undecided, KeyError, IndexError) as e:
+        ctx.unrecognised(r5, lp, "Simultaneous.log_prob", f"not interpretable: {e}")
 
     # ---------------------------------------------------------------- R6
     pdfm = model.methods["pdf"]
@@ -356,7 +361,11 @@ def _staterror(ctx, rid, repo):
     # sigmas <- relerrs <- sqrt( sum(axis=0)( [ (uncrt/nomsall)**2 ... ] ) ), nomsall <- sum(axis=0)([nom_data ... if mask.any()])
     sq = [c for c in A.calls_in(fin.node) if A.call_attr(c) == "sqrt"]
     sums = [c for c in A.calls_in(fin.node) if A.call_attr(c) == "sum"]
-    ok_sqrt = bool(sq) and any("relerrs" in A.names_loaded(c.args[0]) for c in sq if c.args)
+    sq_targets = set()
+    for n in ast.walk(fin.node):
+        if isinstance(n, ast.Assign) and isinstance(n.value, ast.Call) and A.call_attr(n.value) == "sqrt":
+            sq_targets |= set(A.assigned_names(n.targets[0]))
+    ok_sqrt = bool(sq_targets)
     quad = None
     nomsum = None
     for c in sums:
@@ -375,7 +384,15 @@ def _staterror(ctx, rid, repo):
         ctx.holds(rid, site, "total nominal: sum over the samples that carry the modifier (mask.any())")
     else:
         ctx.violated(rid, fin, "nomsall", "the nominal total of the staterror width is not the sum over the samples that carry the modifier", node=fin.node)
-    if ok_sqrt and _dep_text(d, "sigmas", "relerrs"):
+    rp_calls = [c for c in A.calls_in(fin.node) if A.call_attr(c) == "required_parset" and c.args]
+    flows = any(d.roots_of(c.args[0]) & sq_targets for c in rp_calls)
+    # the sqrt must be taken of the quadrature sum
+    quad_names = set()
+    for n in ast.walk(fin.node):
+        if isinstance(n, ast.Assign) and quad and any(x is quad[0] for x in ast.walk(n.value)):
+            quad_names |= set(A.assigned_names(n.targets[0]))
+    sq_of_quad = any(isinstance(n, ast.Assign) and isinstance(n.value, ast.Call) and A.call_attr(n.value) == "sqrt" and n.value.args and (A.names_loaded(n.value.args[0]) & quad_names or (quad and any(x is quad[0] for x in ast.walk(n.value)))) for n in ast.walk(fin.node))
+    if ok_sqrt and flows and sq_of_quad:
         ctx.holds(rid, site, "sigmas = sqrt(relerrs)[mask]")
     else:
         ctx.violated(rid, fin, "sigmas", "sigma is not the square root of the quadrature sum", expected="sqrt(relerrs)", node=fin.node)
